@@ -1,9 +1,251 @@
-//! C04: not built yet.
-use crate::out::Out;
-use serde_json::Value;
+//! C04: conditional refinement (`SpecializeByConditional`) of IntervalDomain and
+//! DataDomain<IntervalDomain>: add_signed/unsigned_less/greater_equal_bound, add_not_equal_bound,
+//! intersect.  Events:
+//!   {ev:"batch", dom:"iv", kind, x}          -> results[256] (bound = unsigned byte value 0..255), panic
+//!   {ev:"one",   dom:"iv"|"dd", kind, x, c}  -> r, panic
+//!   {ev:"isect", dom:"iv"|"dd", kind:"isect", x, y} -> r, panic
+//! A result is {ok, v}: ok = false is the implementation's `Err` ("unsatisfiable"); v then repeats x.
+//! `cls` is a feature tag of the INPUTS (used only to key known findings).  T_C04.tla decides.
+use crate::domenc::*;
+use crate::enc::{bv, bv_from_json};
+use crate::ivgen::*;
+use crate::out::{catch, Out};
+use crate::rng::Rng;
+use cwe_checker_lib::abstract_domain::*;
+use cwe_checker_lib::intermediate_representation::*;
+use serde_json::{json, Value};
+use std::panic::AssertUnwindSafe;
 
-pub fn gen(_out: &mut Out, _sub: &str) {}
+pub const KINDS: [&str; 5] = ["sle", "ule", "sge", "uge", "ne"];
 
-pub fn replay(_run: &[Value], _sub: &str) -> Vec<Value> {
-    Vec::new()
+fn refine<T: SpecializeByConditional + Clone>(x: &T, kind: &str, c: &Bitvector) -> Result<T, ()> {
+    let x = x.clone();
+    match kind {
+        "sle" => x.add_signed_less_equal_bound(c),
+        "ule" => x.add_unsigned_less_equal_bound(c),
+        "sge" => x.add_signed_greater_equal_bound(c),
+        "uge" => x.add_unsigned_greater_equal_bound(c),
+        _ => x.add_not_equal_bound(c),
+    }
+    .map_err(|_| ())
+}
+
+fn res<T>(r: &Result<T, ()>, dflt: &Value, enc: &dyn Fn(&T) -> Value) -> Value {
+    match r {
+        Ok(v) => json!({"ok": true, "v": enc(v)}),
+        Err(()) => json!({"ok": false, "v": dflt}),
+    }
+}
+
+fn finish(mut ev: serde_json::Map<String, Value>, field: &str, r: Result<Value, String>, dflt: Value) -> Value {
+    match r {
+        Ok(v) => { ev.insert(field.into(), v); ev.insert("panic".into(), json!("")); }
+        Err(p) => { ev.insert(field.into(), dflt); ev.insert("panic".into(), json!(if p.is_empty() { "panic".to_string() } else { p })); }
+    }
+    Value::Object(ev)
+}
+
+fn base(input: &Value, keys: &[&str]) -> serde_json::Map<String, Value> {
+    let mut ev = serde_json::Map::new();
+    for k in keys { ev.insert(k.to_string(), input[*k].clone()); }
+    ev
+}
+
+/// inputs-only feature tag of an intersection: both operands strided and one start negative
+fn isect_cls(x: &RawIv, y: &RawIv) -> &'static str {
+    if x.stride > 1 && y.stride > 1 && (to_i128(&x.start) < 0 || to_i128(&y.start) < 0) { "strided_negative_start" } else { "" }
+}
+fn dd_isect_cls(x: &Data, y: &Data) -> &'static str {
+    let mut pairs: Vec<(RawIv, RawIv)> = Vec::new();
+    if let (Some(a), Some(b)) = (x.get_absolute_value(), y.get_absolute_value()) { pairs.push((RawIv::of(a), RawIv::of(b))); }
+    for (i, a) in x.get_relative_values() {
+        if let Some(b) = y.get_relative_values().get(i) { pairs.push((RawIv::of(a), RawIv::of(b))); }
+    }
+    if pairs.iter().any(|(a, b)| !isect_cls(a, b).is_empty()) { "strided_negative_start" } else { "" }
+}
+
+/// Re-execute the inputs of one event on the real code.
+pub fn exec(input: &Value) -> Value {
+    let evk = input["ev"].as_str().unwrap();
+    let dom = input["dom"].as_str().unwrap();
+    let kind = input["kind"].as_str().unwrap().to_string();
+    match (evk, dom) {
+        ("batch", _) => {
+            let x = iv_from_json(&input["x"]);
+            let ev = base(input, &["ev", "dom", "kind", "x", "cls"]);
+            let dflt = input["x"].clone();
+            let r = catch(AssertUnwindSafe(|| {
+                Value::Array((0..256u64).map(|c| res(&refine(&x, &kind, &Bitvector::from_u8(c as u8)), &dflt, &|v| iv(v))).collect())
+            }));
+            finish(ev, "results", r, json!([]))
+        }
+        ("one", "iv") => {
+            let x = iv_from_json(&input["x"]);
+            let c = bv_from_json(&input["c"]);
+            let ev = base(input, &["ev", "dom", "kind", "x", "c", "cls"]);
+            let dflt = input["x"].clone();
+            let r = catch(AssertUnwindSafe(|| res(&refine(&x, &kind, &c), &dflt, &|v| iv(v))));
+            finish(ev, "r", r, json!({"ok": false, "v": input["x"]}))
+        }
+        ("one", _) => {
+            let x = dd_from_json(&input["x"]);
+            let c = bv_from_json(&input["c"]);
+            let ev = base(input, &["ev", "dom", "kind", "x", "c", "cls"]);
+            let dflt = input["x"].clone();
+            let r = catch(AssertUnwindSafe(|| res(&refine(&x, &kind, &c), &dflt, &|v| dd(v))));
+            finish(ev, "r", r, json!({"ok": false, "v": input["x"]}))
+        }
+        (_, "iv") => {
+            let (x, y) = (iv_from_json(&input["x"]), iv_from_json(&input["y"]));
+            let ev = base(input, &["ev", "dom", "kind", "x", "y", "cls"]);
+            let dflt = input["x"].clone();
+            let r = catch(AssertUnwindSafe(|| res(&x.clone().intersect(&y).map_err(|_| ()), &dflt, &|v| iv(v))));
+            finish(ev, "r", r, json!({"ok": false, "v": input["x"]}))
+        }
+        _ => {
+            let (x, y) = (dd_from_json(&input["x"]), dd_from_json(&input["y"]));
+            let ev = base(input, &["ev", "dom", "kind", "x", "y", "cls"]);
+            let dflt = input["x"].clone();
+            let r = catch(AssertUnwindSafe(|| res(&x.clone().intersect(&y).map_err(|_| ()), &dflt, &|v| dd(v))));
+            finish(ev, "r", r, json!({"ok": false, "v": input["x"]}))
+        }
+    }
+}
+
+pub fn replay(run: &[Value], _sub: &str) -> Vec<Value> {
+    run.iter().map(exec).collect()
+}
+
+fn push(out: &mut Out, inp: Value) {
+    let ev = exec(&inp);
+    // rule: the refinement changed the value or reported "unsatisfiable" (for a batch: for some bound)
+    let changed = |r: &Value| r["ok"] == false || r["v"] != ev["x"];
+    let nt = ev["panic"] == "" && if ev["ev"] == "batch" { ev["results"].as_array().unwrap().iter().any(changed) } else { changed(&ev["r"]) };
+    out.emit(vec![ev], nt);
+}
+
+const HINT_PCT: u64 = 50;
+const GRID: [i128; 13] = [-128, -127, -65, -64, -2, -1, 0, 1, 2, 63, 64, 126, 127];
+
+/// inputs-only feature tag of a bound refinement: the stride does not fit a signed value of the width
+fn bound_cls(x: &RawIv) -> &'static str {
+    if (x.stride as u128) >= 1u128 << (8 * x.width() - 1) { "stride_ge_half_range" } else { "" }
+}
+fn batch(out: &mut Out, x: &RawIv, kind: &str) {
+    push(out, json!({"ev": "batch", "dom": "iv", "kind": kind, "x": x.json(), "cls": bound_cls(x)}));
+}
+
+/// bounds that matter for x: around start, end, members, the sign boundary and the extremes
+fn pick_bound(rng: &mut Rng, x: &RawIv, w: u64) -> Bitvector {
+    let (s, e) = (to_i128(&x.start), to_i128(&x.end));
+    let st = x.stride.max(1) as i128;
+    let v = match rng.below(10) {
+        0 => s + rng.range(-2, 2) as i128,
+        1 => e + rng.range(-2, 2) as i128,
+        2 => s + st * rng.range(0, 4) as i128 + rng.range(-1, 1) as i128,
+        3 => e - st * rng.range(0, 4) as i128 + rng.range(-1, 1) as i128,
+        4 => rng.range(-2, 2) as i128,
+        5 => *rng.pick(&[smin(w), smin(w) + 1, smax(w), smax(w) - 1]),
+        6 => match (&x.lo, &x.hi) { (Some(b), _) if rng.chance(1, 2) => to_i128(b) + rng.range(-1, 1) as i128, (_, Some(b)) => to_i128(b) + rng.range(-1, 1) as i128, _ => s + (e - s) / 2 },
+        7 => s + (e - s) / 2 + rng.range(-3, 3) as i128,
+        _ => pick_val(rng, w),
+    };
+    bvs(v.clamp(smin(w), smax(w)), w)
+}
+
+/// partner for an intersection: overlapping range, strides with common factors, shifted residue classes
+fn isect_partner(rng: &mut Rng, x: &RawIv, w: u64) -> RawIv {
+    let (mn, mx) = (smin(w), smax(w));
+    let (s, e) = (to_i128(&x.start), to_i128(&x.end));
+    let st = *rng.pick(&[1u64, 2, 3, 4, 6, 8, 12, 16, x.stride.max(1), x.stride.max(1) * 2, x.stride.max(1) * 3]);
+    let st = st.min(1 << 40) as i128;
+    let len = (e - s).max(st * 3);
+    let s2 = (s + rng.range(-40, 40) as i128 + if rng.chance(1, 3) { -len / 2 } else { 0 }).clamp(mn, mx);
+    let n = ((len / st) + rng.range(-2, 6) as i128).max(0).min((mx - s2) / st);
+    let e2 = s2 + n * st;
+    let stride = if n == 0 { 0 } else { st as u64 };
+    let (lo, hi, d) = rand_hints(rng, w, s2, e2, stride, HINT_PCT);
+    let mut r = raw(s2, e2, stride, w);
+    r.lo = lo.map(|v| bvs(v, w)); r.hi = hi.map(|v| bvs(v, w)); r.delay = d;
+    r
+}
+
+fn isect_iv(out: &mut Out, x: &RawIv, y: &RawIv) {
+    push(out, json!({"ev": "isect", "dom": "iv", "kind": "isect", "x": x.json(), "y": y.json(), "cls": isect_cls(x, y)}));
+}
+
+pub fn gen(out: &mut Out, _sub: &str) {
+    let mut rng = Rng::new(out.seed ^ 0xC04);
+    let q = out.quick();
+    // ---- 1 byte: every bound for each interval ---------------------------------------------------
+    // grid family: start, end on the grid, every admissible stride (thorough: all; quick: a sample)
+    let mut grid: Vec<RawIv> = Vec::new();
+    for &s in &GRID {
+        for &e in &GRID {
+            if e < s { continue; }
+            if e == s { grid.push(raw(s, e, 0, 1)); continue; }
+            for st in 1..=(e - s) {
+                if (e - s) % st == 0 { grid.push(raw(s, e, st as u64, 1)); }
+            }
+        }
+    }
+    out.extra.insert("grid_intervals".into(), json!(grid.len()));
+    out.extra.insert("grid_exhaustive".into(), json!(!q));
+    if q { rng.shuffle(&mut grid); grid.truncate(30); }
+    for x in &grid {
+        for kind in KINDS { batch(out, x, kind); }
+    }
+    for _ in 0..out.size(40, 400) {
+        let x = rand_raw(&mut rng, 1, HINT_PCT);
+        for kind in KINDS { batch(out, &x, kind); }
+    }
+    // ---- wider intervals: bounds around start / end / stride multiples ---------------------------
+    for w in [2u64, 4, 8] {
+        for _ in 0..out.size(if w == 2 { 60 } else { 180 }, 2000) {
+            let mut x = rand_raw(&mut rng, w, HINT_PCT);
+            if w == 2 && count(&x) > 3000 { x = rand_raw_sized(&mut rng, w, Size::Medium, HINT_PCT); }
+            let c = pick_bound(&mut rng, &x, w);
+            let kind = *rng.pick(&KINDS);
+            push(out, json!({"ev": "one", "dom": "iv", "kind": kind, "x": x.json(), "c": bv(&c), "cls": bound_cls(&x)}));
+        }
+    }
+    // ---- intersections ---------------------------------------------------------------------------
+    for _ in 0..out.size(1000, 15000) {
+        let x = rand_raw(&mut rng, 1, HINT_PCT);
+        let y = if rng.chance(2, 3) { isect_partner(&mut rng, &x, 1) } else { rand_raw(&mut rng, 1, HINT_PCT) };
+        if rng.chance(1, 2) { isect_iv(out, &x, &y) } else { isect_iv(out, &y, &x) }
+    }
+    for w in [2u64, 4, 8] {
+        for _ in 0..out.size(if w == 2 { 60 } else { 150 }, 1500) {
+            let mut x = rand_raw(&mut rng, w, HINT_PCT);
+            if w == 2 && count(&x) > 3000 { x = rand_raw_sized(&mut rng, w, Size::Medium, HINT_PCT); }
+            let mut y = if rng.chance(3, 4) { isect_partner(&mut rng, &x, w) } else { rand_raw(&mut rng, w, HINT_PCT) };
+            if w == 2 && count(&y) > 3000 { y = rand_raw_sized(&mut rng, w, Size::Medium, HINT_PCT); }
+            if rng.chance(1, 2) { isect_iv(out, &x, &y) } else { isect_iv(out, &y, &x) }
+        }
+    }
+    // ---- data domains: the absolute part is refined, relative / Top members are preserved ----------
+    for w in [1u64, 8] {
+        for _ in 0..out.size(220, 2500) {
+            let x = rand_data(&mut rng, w, HINT_PCT);
+            let c = match x.get_absolute_value() { Some(a) => pick_bound(&mut rng, &RawIv::of(a), w), None => bvs(pick_val(&mut rng, w), w) };
+            let kind = *rng.pick(&KINDS);
+            let cls = x.get_absolute_value().map(|a| bound_cls(&RawIv::of(a))).unwrap_or("");
+            push(out, json!({"ev": "one", "dom": "dd", "kind": kind, "x": dd(&x), "c": bv(&c), "cls": cls}));
+        }
+        for _ in 0..out.size(150, 1500) {
+            let x = rand_data(&mut rng, w, HINT_PCT);
+            let mut y = rand_data(&mut rng, w, HINT_PCT);
+            if rng.chance(1, 2) {
+                // related partner: intersecting absolute parts and offsets
+                if let Some(a) = x.get_absolute_value() { y.set_absolute_value(Some(isect_partner(&mut rng, &RawIv::of(a), w).build())); }
+                let mut rel = y.get_relative_values().clone();
+                for (i, off) in x.get_relative_values() {
+                    if rng.chance(2, 3) { rel.insert(i.clone(), isect_partner(&mut rng, &RawIv::of(off), w).build()); }
+                }
+                y.set_relative_values(rel);
+            }
+            push(out, json!({"ev": "isect", "dom": "dd", "kind": "isect", "x": dd(&x), "y": dd(&y), "cls": dd_isect_cls(&x, &y)}));
+        }
+    }
 }
